@@ -35,4 +35,5 @@ EXTRAS = [
     lambda rep, fb, tier: __import__("vf.rules.pybind", fromlist=["x"]).rule_py_layout_attrs(rep),
     lambda rep, fb, tier: pyrules.rule_py_call_shape(rep),
     lambda rep, fb, tier: pyrules.rule_py_isinstance_shadow(rep),
+    lambda rep, fb, tier: __import__("vf.rules.pyrules3", fromlist=["x"]).rule_py_unused_local(rep),
 ]
